@@ -15,6 +15,7 @@ import (
 	"syscall"
 	"testing"
 	"time"
+	"unsafe"
 
 	"github.com/tailscale/setec/client/setec"
 	"github.com/tailscale/setec/server"
@@ -307,7 +308,15 @@ func runC18(t *testing.T, c ByteCase) (*h.Violation, h.Info) {
 			return h.V("bytes-round-trip-unchanged", "Secret.GetString differs from the bytes put"), info
 		}
 	}
+	afterPoll := st.Secret("s").Get()
 	st.Close()
+	// what the program holds it keeps - also when the Store has been closed
+	if !bytes.Equal(afterPoll, val) || !bytes.Equal(held, heldCopy) {
+		return h.V("bytes-round-trip-unchanged", "bytes obtained from the Store's handle before Close read %.40q... after Close (they were %.40q...): Close modified bytes it had handed out", afterPoll, val), info
+	}
+	if v := same("Store handle after Close", st.Secret("s").Get(), nil); v != nil {
+		return v, info
+	}
 	data, err := os.ReadFile(cachePath)
 	if err != nil {
 		return h.V("bytes-round-trip-unchanged", "cache file: %v", err), info
@@ -503,7 +512,64 @@ func runC18CLI(t *testing.T, c CLICase) (*h.Violation, h.Info) {
 	if !bytes.Equal(want, input) {
 		info.Class("sent-trimmed")
 	}
+	// ... and the get command, with its output redirected (a file, a pipe: not a terminal), writes
+	// exactly those bytes - whether the person typing the command sits at a terminal or not
+	for _, stdinKind := range []string{"null", "pty"} {
+		gctx, gcancel := context.WithTimeout(context.Background(), 60*time.Second)
+		gcmd := exec.CommandContext(gctx, bin, "-s", hs.URL, "get", "cli/secret")
+		gcmd.Env = append(os.Environ(), "SETEC_SERVER=")
+		var in *os.File
+		if stdinKind == "pty" {
+			master, slave, err := openPTY()
+			if err != nil {
+				gcancel()
+				info.Class("no-pseudo-terminal-available")
+				continue
+			}
+			defer master.Close()
+			in = slave
+		} else {
+			in, _ = os.Open(os.DevNull)
+		}
+		gcmd.Stdin = in
+		var stdout, stderr bytes.Buffer
+		gcmd.Stdout, gcmd.Stderr = &stdout, &stderr
+		gerr := gcmd.Run()
+		in.Close()
+		gcancel()
+		if gerr != nil {
+			return h.V("bytes-round-trip-unchanged", "setec get (stdin=%s, output redirected) failed: %v: %s", stdinKind, gerr, stderr.String()), info
+		}
+		if !bytes.Equal(stdout.Bytes(), orEmpty(want)) {
+			return h.V("bytes-round-trip-unchanged", "setec get with its output redirected (stdin: %s) wrote %d bytes %.60q; the stored value has %d bytes %.60q", map[string]string{"null": "/dev/null", "pty": "a terminal"}[stdinKind], stdout.Len(), stdout.Bytes(), len(want), want), info
+		}
+		info.Class("cli-get-stdin-" + stdinKind)
+	}
 	return nil, info
+}
+
+// openPTY opens a pseudo-terminal pair (Linux): the slave end is a terminal as far as isatty goes.
+func openPTY() (master, slave *os.File, err error) {
+	master, err = os.OpenFile("/dev/ptmx", os.O_RDWR|syscall.O_NOCTTY, 0)
+	if err != nil {
+		return nil, nil, err
+	}
+	var n uint32
+	var unlock int32
+	if _, _, e := syscall.Syscall(syscall.SYS_IOCTL, master.Fd(), 0x40045431 /* TIOCSPTLCK */, uintptr(unsafe.Pointer(&unlock))); e != 0 {
+		master.Close()
+		return nil, nil, e
+	}
+	if _, _, e := syscall.Syscall(syscall.SYS_IOCTL, master.Fd(), 0x80045430 /* TIOCGPTN */, uintptr(unsafe.Pointer(&n))); e != 0 {
+		master.Close()
+		return nil, nil, e
+	}
+	slave, err = os.OpenFile(fmt.Sprintf("/dev/pts/%d", n), os.O_RDWR|syscall.O_NOCTTY, 0)
+	if err != nil {
+		master.Close()
+		return nil, nil, err
+	}
+	return master, slave, nil
 }
 
 var c18cli = &h.Campaign[CLICase]{
